@@ -682,6 +682,8 @@ impl ParseState<'_> {
     /// * 🚩因为「递归解析」需要传递信息，故需要额外传递索引
     /// * 📌不传递额外信息、直接传递字符串的才能叫「parse」
     fn segment_term(&self, env: ParseEnv) -> ParseResult<(Term, ParseIndex)> {
+        #[cfg(narsese_verif)]
+        crate::verif_hooks::yield_point(2);
         // 先解析「集合词项」
         if let Ok(result) = self.segment_term_set(env) {
             return Ok(result);
